@@ -146,13 +146,20 @@ def signStage (mac : Str → List UInt8 → Str) (env : Env) (r : Req) (hm : Hea
         mkForward r (insert authHeader (authScheme ++ [' '] ++ guid ++ [' '] ++ mac key si) hm) (some (guid, si))
       else mkForward r hm none
 
+def teHeader : Str := "transfer-encoding".toList
+
+/-- the head that is signed and sent: hyper sends no `transfer-encoding` for an empty body, so the
+proxy drops it from the head before signing -/
+def signedHeaders (r : Req) (hm : Headers) : Headers :=
+  if r.body.isEmpty then remove teHeader hm else hm
+
 /-- everything after authorization passed: proxy-owned headers, body collection, signing -/
 def forwardStage (mac : Str → List UInt8 → Str) (env : Env) (caller : Caller) (r : Req) : Outcome :=
   let hm := insert dateHeader env.now (insert claimsHeader (claimsValue caller.elevated) (ofWire r.headers))
   -- the body is collected (through the `Limited` wrapper) before anything goes upstream
   if r.body.length > limitFor r then .respond 400
   else if shouldSkipSig r.method r.uri then mkForward r hm none
-  else signStage mac env r hm
+  else signStage mac env r (signedHeaders r hm)
 
 /-- authorization for an attributed connection -/
 def authStage (mac : Str → List UInt8 → Str) (env : Env) (ip : Str) (port : Nat) (caller : Caller) (r : Req) : Result :=
